@@ -9,7 +9,9 @@ SPEC = dict(
     rule="obs_inval: (a) a caching client with OnInvalidations: cached reads, writes / FLUSHALL from another connection (real tracking pushes of "
          "the fake server), injected multi-key pushes, then Close or kill; ground truth = the invalidate pushes found in the bytes the client "
          "read (client-side tee); (b) a dedicated client installing / replacing / clearing hook sets with and without an invalidation callback, "
-         "pushes and messages in between, then release, Close or kill. obs_dedicated: release after SetOnInvalidations turns tracking off before reuse",
+         "pushes and messages in between, then release, Close or kill; both with and without the client-side cache (DisableCache + CLIENT TRACKING ON "
+         "by hand); the hook kind also checks each hook set's invalidation log directly against the pushes the server was made to send. "
+         "obs_dedicated: release after SetOnInvalidations turns tracking off before reuse",
     trusted=["client-side tee + minimal RESP3 scanner (harness/psx) as ground truth of the pushes on the wire",
              "fake Redis server tracking (OPTIN, invalidation pushes, flush pushes)"],
     assumptions=["the invalidation branch of handlePush and the clean-up are part of the C26 LTS; all schedules of that LTS are covered by the theorems, "
